@@ -4,6 +4,7 @@ import (
 	"context"
 	"fmt"
 	"math"
+	"encoding/json"
 	"os"
 	"os/exec"
 	"path/filepath"
@@ -766,6 +767,35 @@ func checkC20(c *core.Ctx) {
 			c.Count("shim_selftest_schedules", n)
 		}
 	}
+	// Channel operations, select and timers are not intercepted by the sync shim (DESIGN 9.6). A library that uses
+	// them (the rewriter counts them per file into overlay.stats.json) cannot be driven by the cooperative
+	// scheduler: a thread that blocks in one keeps the baton, every scenario costs a step timeout, abandoned
+	// executions leave goroutines behind that hold the library's own resources (pool workers, semaphore tokens),
+	// and what follows in the same process is no longer meaningful - with a correct channel-based worker pool
+	// (property-preserving bundle B7) a worker of this check ran into its 20-minute limit and the check was
+	// reported broken. Such a tree is therefore NOT explored under the scheduler at all: every scenario is only
+	// run on free-running goroutines (it must finish), the result is reported as not exhaustive, and the
+	// free-running -race pass (all phases) remains the deciding step for it.
+	if n := overlayChannelOps(); n > 0 {
+		c.P.Capped = true
+		c.P.CapNote = fmt.Sprintf("the library's current source contains %d channel operations, which the controlled scheduler does not intercept: scenarios were run on free-running goroutines only (must finish), not explored; the free-running -race pass decides", n)
+		c.Note("%s", c.P.CapNote)
+		c.Count("scenarios_not_explored_library_uses_channels", 1)
+		tensor.VerifSetHandler(nil)
+		for _, sc := range c20Scenarios(c.Thorough()) {
+			if c.Expired() {
+				break
+			}
+			sc := sc
+			c.Case(fmt.Sprintf("freerun/%s", sc.name(bs)), true, func() core.Verdict {
+				if !c20FreeRunFinishes(sc, bs, 3*time.Minute) {
+					return core.Fail("scenario %s: the thread bodies, on free-running goroutines with fresh shared tensors, did not finish within 3 minutes (they take milliseconds): deadlock or lost wake-up in the library", sc.name(bs))
+				}
+				return core.Pass()
+			})
+		}
+		return
+	}
 	for _, sc := range c20Scenarios(c.Thorough()) {
 		if c.Expired() {
 			break
@@ -1172,4 +1202,26 @@ func schedStr(ch []int) string {
 	}
 	b.WriteString("]}")
 	return b.String()
+}
+
+// overlayChannelOps: the number of channel operations the overlay rewriter found in the library's current source
+// (0 when there is no overlay or the stats file cannot be read).
+func overlayChannelOps() int {
+	b, err := os.ReadFile(filepath.Join(core.VerifDir, "engine", "bin", "ov", "overlay.stats.json"))
+	if err != nil {
+		return 0
+	}
+	var st struct {
+		Files []struct {
+			N int `json:"channel_operations_not_intercepted"`
+		} `json:"files"`
+	}
+	if json.Unmarshal(b, &st) != nil {
+		return 0
+	}
+	n := 0
+	for _, f := range st.Files {
+		n += f.N
+	}
+	return n
 }
